@@ -22,6 +22,19 @@ def parseEntry (e : String) : Entry :=
     md := (parsePairs (nth p 2)).map fun (k, v) => (dec k, dec v),
     payload := (parsePairs (nth p 3)).map fun (k, v) => (dec k, parseVal v) }
 
+/-- the JSON line the harness writes for an entry: with `oe=1` an entry without metadata / payload has no such key -/
+def lineOf (omitEmpty : Bool) (e : Entry) : Line :=
+  { tag := some e.tag, call := some e.call,
+    md := if omitEmpty && e.md.isEmpty then none else some e.md,
+    payload := if omitEmpty && e.payload.isEmpty then none else some e.payload }
+
+/-- the ammo objects the provider delivers for the lines of a file, through the model of `grpcjson.decodeAmmo`: every
+line is delivered in an object that still holds the PREVIOUS line's content (the worst the pool can do) -/
+def deliver (omitEmpty : Bool) (es : List Entry) : List Entry :=
+  (es.foldl (fun (st : Entry × List Entry) e =>
+    let cur := decodeAmmo st.1 (lineOf omitEmpty e)
+    (cur, cur :: st.2)) (zeroEntry, [])).2.reverse
+
 def parseCall (c : String) : CallDef :=
   let p := c.splitOn "|"
   { name := nth p 0, call := dec (nth p 1),
@@ -106,7 +119,7 @@ def handleCore : Handler := fun input impl =>
   match getS kv "mode" with
   | "table" => (tableText, if impl == tableText then "ok" else "fail:method-table:the reflected method table differs from the model's")
   | "json" =>
-    let es := (splitList (getS kv "e") ";").map parseEntry
+    let es := deliver (getS kv "oe" == "1") ((splitList (getS kv "e") ";").map parseEntry)
     if hasOther es || hasOddNumeric es then ("-", "skip:unmodelled-value") else
     if hasDupKeys es then ("-", "skip:duplicate-keys") else
     let tmo := parseTmo kv
